@@ -71,7 +71,11 @@ Inductive kev := KEv (i : nat) (hint : option nat) (o : obs).
 
 (* One scheduler step: the resumed actor's observation first, then the observations of the actors
    that were spinning (each was made to pass the tindex lock once); then the table read through
-   the hook (None after a panic: the service lock stays locked). *)
+   the hook (None after a panic: the service lock stays locked).  A "fused" group holds the
+   observations of several actors resumed one after the other without a table read in between
+   (Delete by the lock holder, then GetOrCreateJournal of writers), then the spinners: what the
+   spinners did in the meantime commutes with those steps (they touch reader counts only, no
+   exclusive flag), and every order of the later observations is tried anyway. *)
 Definition group := (list kev * option (list snap_row))%type.
 
 (* order-oracle values to try: the observed partition if there is one; for an actor observed
